@@ -400,6 +400,17 @@ func C19(c *runner.Cfg) *report.Result {
 		if !cl.Closed().IsSet() || cl.Connected().IsSet() || !cl.Disconnected().IsSet() {
 			res.Violate("c19:flags-after-close", fmt.Sprintf("after Close: Closed=%v Connected=%v Disconnected=%v", cl.Closed().IsSet(), cl.Connected().IsSet(), cl.Disconnected().IsSet()), wit)
 		}
+		// Close is terminal: a closed client does not keep dialing. At most one dial can have been in
+		// flight when Close ran, so three or more connections accepted afterwards are new dials
+		// (the back-off of a redial loop is at most 1 s: 3.5 s show at least three).
+		if idx%16 == 0 {
+			a0 := proxy.Accepts.Load()
+			time.Sleep(3500 * time.Millisecond)
+			if d := proxy.Accepts.Load() - a0; d >= 3 {
+				res.Violate("c19:dials-after-close", fmt.Sprintf("the closed client keeps dialing: %d connections were accepted by the proxy in the 3.5 s after Close had returned and every call had finished", d), wit)
+			}
+			res.Count("lifetimes_watched_for_dials_after_close", 1)
+		}
 		// linearizability of the history
 		hist.mu.Lock()
 		ops := append([]porcupine.Operation(nil), hist.ops...)
